@@ -12,6 +12,16 @@ CLAIMED = {
          'Every ordered pair of version parts over a 13-symbol alphabet up to length 3 (quick) / 4 (thorough), deeper runs over 6 symbols, digit-run tokens beyond 2^64, and full versions through Compare, Parse and Slice.Less is executed on the real code and its sign compared with an independently written Policy comparator; the space is completed, not sampled, and contains a witness for every weight class and both ends of each ASCII range the code tests.',
          'Reference comparator (tokenise then compare, validated on each run against math/big and dpkg --compare-versions); strings longer than the bound and bytes outside the Policy alphabet are not explored.',
          'DESIGN.md §3 C01'),
+ 'C02': ('model_checking',
+         'bounded-exhaustive enumeration of all ordered triples and all short slices; order laws as the oracle (no reference)',
+         'The four preorder laws are evaluated on every ordered triple of a ~350 (quick) / ~900 (thorough) element version set that spans the ~ / end / letter / punctuation ladder, digit runs, leading zeros, epochs and equal-but-different spellings; sort.Sort with the provided adapter is run on every sequence of length <= 4/5 over a 12-element set and the result checked to be a non-decreasing permutation. The laws use only the implementation\'s own answers, so C02 still bites if the C01 reference and the code were wrong in the same way.',
+         'Values outside the enumerated set (longer strings, other bytes) are not explored; termination of sort.Sort is observed, not proved.',
+         'DESIGN.md §3 C02'),
+ 'C03': ('model_checking',
+         'bounded-exhaustive enumeration: grammar product x whitespace x entry points; every-position near-miss generators; all strings up to length 5/7 for the render-parse fixpoint',
+         'A: every (epoch text, upstream, revision, surrounding whitespace, entry point) combination of the Policy grammar over small alphabets must parse to exactly its parts; B: one generator per rejection clause of the statement, at every position, must be rejected; C: every string over a 9-symbol alphabet up to length 5 (quick) / 7 (thorough) that the parser accepts must survive String, MarshalControl, MarshalText and JSON round trips. Completed spaces, not samples.',
+         'Epoch values in (2^31, 2^63) are not demanded either way; strings longer than the bound are not explored.',
+         'DESIGN.md §3 C03'),
 }
 REASON_PENDING = 'check not built yet in this session (planned: see DESIGN.md §3); no claim is made until it exists'
 
